@@ -1351,11 +1351,23 @@ func (w *c01World) esmBlockOp() {
 		app, prod uint64
 		listed    bool
 		env       string
+		amountIn  sdk.Int
 	}
 	sbefore := map[uint64]srec{}
 	for _, sv := range w.app.VaultKeeper.GetStableMintVaults(w.ctx) {
-		sbefore[sv.Id] = srec{sv.AppId, sv.ExtendedPairVaultID, inList(sv.ExtendedPairVaultID, sv.Id), w.env(sv.AppId, sv.ExtendedPairVaultID, 0, false)}
+		sbefore[sv.Id] = srec{sv.AppId, sv.ExtendedPairVaultID, inList(sv.ExtendedPairVaultID, sv.Id), w.env(sv.AppId, sv.ExtendedPairVaultID, 0, false), sv.AmountIn}
 	}
+	// D29 leaves the record of a redeemed stable-mint vault behind; when vault custody holds enough of its collateral again
+	// (a donation, another stable mint) the begin-blocker redeems the SAME record once more. The product's collateral total
+	// before the hook tells such a repetition apart from a failed (rolled back) attempt.
+	collOf := func() map[uint64]sdk.Int {
+		m := map[uint64]sdk.Int{}
+		for _, x := range w.app.VaultKeeper.GetAllAppExtendedPairVaultMapping(w.ctx) {
+			m[x.ExtendedPairId] = x.CollateralLockedAmount
+		}
+		return m
+	}
+	collBefore := collOf()
 	type fk struct{ app, asset uint64 }
 	fees := map[fk]sdk.Int{}
 	for _, a := range w.apps {
@@ -1390,10 +1402,25 @@ func (w *c01World) esmBlockOp() {
 		sids = append(sids, id)
 	}
 	sort.Slice(sids, func(i, j int) bool { return sids[i] < sids[j] })
+	collAfter := collOf()
+	repeated := func(prod uint64) bool { // every already-unlisted stable-mint vault of the product was redeemed once more
+		sum := sdk.ZeroInt()
+		for _, id := range sids {
+			if b := sbefore[id]; b.prod == prod && !b.listed {
+				sum = sum.Add(b.amountIn)
+			}
+		}
+		cb, ok1 := collBefore[prod]
+		ca, ok2 := collAfter[prod]
+		return ok1 && ok2 && sum.IsPositive() && cb.Sub(ca).Equal(sum)
+	}
 	for _, id := range sids {
 		b := sbefore[id]
-		if b.listed && !inList(b.prod, id) {
+		if (b.listed && !inList(b.prod, id)) || (!b.listed && repeated(b.prod)) {
 			w.tr.Line("vault.msg", "esmStable", u(id), "-", "-", "-", "-", b.env, "ok")
+			if !b.listed {
+				w.tr.Count("op:esmStable:repeated(D29)")
+			}
 			ns++
 		}
 	}
